@@ -107,8 +107,9 @@ func TestReplayCovers(t *testing.T) {
 	if err != nil {
 		t.Fatal(err)
 	}
+	noteOrigin := origin
 	sign := func(s note.Signer, size uint64, root []byte) []byte {
-		cp := log.Checkpoint{Origin: origin, Size: size, Hash: root}
+		cp := log.Checkpoint{Origin: noteOrigin, Size: size, Hash: root}
 		b, err := note.Sign(&note.Note{Text: string(cp.Marshal())}, s)
 		if err != nil {
 			t.Fatal(err)
@@ -124,201 +125,230 @@ func TestReplayCovers(t *testing.T) {
 		return b
 	}
 	ok := 0
+	// ways in which a submitted checkpoint can fail to be "valid for the named log": the engine
+	// only says nextValid=false; a violation witness is tried with each until one reproduces
+	invalidVariants := []string{"wrong-key", "other-origin", "origin-extends-configured", "origin-is-prefix-of-configured", "origin-other-case", "origin-trailing-space"}
 	for idx, sc := range scs {
-		m := sc.Model
-		known, stored := rB(m, "r.known"), rB(m, "r.stored")
-		prevSize, nextSize, oldSize := rU(m, "r.prevSize"), rU(m, "r.nextSize"), rU(m, "r.oldSize")
-		if prevSize > 64 || nextSize > 64 {
-			fmt.Printf("SCENARIO %d %s unreplayable (tree sizes too large to build)\n", idx, sc.Cover)
-			continue
-		}
-		max := prevSize
-		if nextSize > max {
-			max = nextSize
-		}
-		hsA, rootA := buildTree(t, "A", max)
-		_, rootB := buildTree(t, "B", max)
-		store := inmemory.NewPersistence()
-		rec.reset()
-		w, err := New(Opts{Persistence: store, Signers: []note.Signer{ws}, KnownLogs: map[string]LogInfo{"L": {SigV: lv, Origin: origin, Hasher: rfc6962.DefaultHasher}}})
-		if err != nil {
-			t.Fatal(err)
-		}
-		id := "L"
-		if !known {
-			id = "not-configured"
-		}
-		prevValid, nextValid := rB(m, "r.prevValid"), rB(m, "r.nextValid")
-		var prevRaw []byte
-		if known && stored {
-			if prevValid {
-				prevRaw = pad(sign(ls, prevSize, rootA(prevSize)), rU(m, "r.prevSigLines"))
-			} else {
-				prevRaw = []byte("this is not a checkpoint of the log\n")
+		isViolation := strings.HasPrefix(sc.Cover, "violation:")
+		for vi, variant := range invalidVariants {
+			if vi > 0 && !isViolation {
+				break
 			}
-			wo, err := store.WriteOps(id)
-			if err != nil || wo.Set(prevRaw) != nil {
-				t.Fatal("preload failed")
+			m := sc.Model
+			known, stored := rB(m, "r.known"), rB(m, "r.stored")
+			prevSize, nextSize, oldSize := rU(m, "r.prevSize"), rU(m, "r.nextSize"), rU(m, "r.oldSize")
+			if prevSize > 64 || nextSize > 64 {
+				fmt.Printf("SCENARIO %d %s unreplayable (tree sizes too large to build)\n", idx, sc.Cover)
+				continue
 			}
-			_ = wo.Close()
-		}
-		// the submitted checkpoint
-		sameRoot := rB(m, "r.sameRoot")
-		vcOK := rB(m, "r.vcOK")
-		nextRoot := rootA(nextSize)
-		if stored && prevSize == nextSize && !sameRoot {
-			nextRoot = rootB(nextSize)
-			if nextSize == 0 {
-				nextRoot = bytes.Repeat([]byte{9}, 32)
+			max := prevSize
+			if nextSize > max {
+				max = nextSize
 			}
-		}
-		if stored && nextSize > prevSize && !vcOK && prevSize > 0 {
-			nextRoot = rootB(nextSize) // a fork: no proof can verify
-		}
-		signer := ls
-		if known && !nextValid {
-			signer = wrong
-		}
-		nextRaw := pad(sign(signer, nextSize, nextRoot), rU(m, "r.nextSigLines"))
-		// the proof
-		var pf [][]byte
-		plen := rU(m, "r.proofLen")
-		if stored && nextSize > prevSize && prevSize > 0 && vcOK {
-			tp, err := tlog.ProveTree(int64(nextSize), int64(prevSize), hsA)
+			hsA, rootA := buildTree(t, "A", max)
+			_, rootB := buildTree(t, "B", max)
+			store := inmemory.NewPersistence()
+			rec.reset()
+			w, err := New(Opts{Persistence: store, Signers: []note.Signer{ws}, KnownLogs: map[string]LogInfo{"L": {SigV: lv, Origin: origin, Hasher: rfc6962.DefaultHasher}}})
 			if err != nil {
 				t.Fatal(err)
 			}
-			for _, h := range tp {
-				h := h
-				pf = append(pf, h[:])
+			id := "L"
+			if !known {
+				id = "not-configured"
 			}
-		} else {
-			for i := uint64(0); i < plen; i++ {
-				pf = append(pf, bytes.Repeat([]byte{byte(0xa0 + i)}, 32))
+			prevValid, nextValid := rB(m, "r.prevValid"), rB(m, "r.nextValid")
+			var prevRaw []byte
+			if known && stored {
+				if prevValid {
+					prevRaw = pad(sign(ls, prevSize, rootA(prevSize)), rU(m, "r.prevSigLines"))
+				} else {
+					prevRaw = []byte("this is not a checkpoint of the log\n")
+				}
+				wo, err := store.WriteOps(id)
+				if err != nil || wo.Set(prevRaw) != nil {
+					t.Fatal("preload failed")
+				}
+				_ = wo.Close()
 			}
-		}
-		out, uerr := w.Update(context.Background(), id, oldSize, nextRaw, pf)
-		// observed classes
-		var gotKind uint64 = 8
-		for k, e := range kinds {
-			if uerr == e {
-				gotKind = k
-			}
-		}
-		var gotOut uint64
-		if out != nil {
-			switch {
-			case uerr == nil:
-				gotOut = 2
-			case stored && bytes.Equal(out, prevRaw):
-				gotOut = 1
-			default:
-				gotOut = 3
-			}
-		}
-		accepted := uerr == nil
-		after, aerr := w.GetCheckpoint(id)
-
-		// ---- native oracles: the properties, stated over the real artefacts ----
-		var failed []string
-		fail := func(s string) { failed = append(failed, s) }
-		if accepted && !(known && nextValid) {
-			fail("C02")
-		}
-		if accepted && stored {
-			if !(prevValid && oldSize == prevSize && nextSize >= prevSize && (nextSize != prevSize || sameRoot) && (nextSize == prevSize || prevSize == 0 || vcOK)) {
-				fail("C01")
-			}
-		}
-		if !accepted {
-			unchanged := (stored && aerr == nil && bytes.Equal(after, prevRaw)) || (!stored && aerr != nil)
-			if !unchanged || !(out == nil || (stored && bytes.Equal(out, prevRaw))) {
-				fail("C03")
-			}
-		}
-		if accepted {
-			n, err := note.Open(out, note.VerifierList(lv, ws.Verifier()))
-			nn, err2 := note.Open(nextRaw, note.VerifierList(lv))
-			if err != nil || err2 != nil || len(n.Sigs) != 2 || n.Text != nn.Text || aerr != nil || !bytes.Equal(after, out) {
-				fail("C04")
-			}
-			if aerr == nil {
-				if _, _, _, err := log.ParseCheckpoint(after, origin, lv); err != nil {
-					fail("C08")
+			// the submitted checkpoint
+			sameRoot := rB(m, "r.sameRoot")
+			vcOK := rB(m, "r.vcOK")
+			nextRoot := rootA(nextSize)
+			if stored && prevSize == nextSize && !sameRoot {
+				nextRoot = rootB(nextSize)
+				if nextSize == 0 {
+					nextRoot = bytes.Repeat([]byte{9}, 32)
 				}
 			}
-		}
-		// C09: first matching rule (claimed cases only)
-		claimed, want := true, uint64(0)
-		switch {
-		case !known:
-			want = 2
-		case !nextValid:
-			want = 3
-		case !stored:
-			want, claimed = 1, oldSize == 0 && plen == 0
-		case !prevValid:
-			claimed = false
-		case oldSize > nextSize:
-			want = 4
-		case oldSize != prevSize:
-			want = 5
-		case nextSize == prevSize && !sameRoot:
-			want = 6
-		case prevSize == 0 && nextSize > 0:
-			claimed = false
-		default:
-			verdict := vcOK
-			if nextSize == prevSize {
-				verdict = plen == 0
+			if stored && nextSize > prevSize && !vcOK && prevSize > 0 {
+				nextRoot = rootB(nextSize) // a fork: no proof can verify
 			}
-			if verdict {
-				want = 1
+			signer := ls
+			noteOrigin = origin
+			if known && !nextValid {
+				switch variant {
+				case "wrong-key":
+					signer = wrong
+				case "other-origin":
+					noteOrigin = "another.example/log"
+				case "origin-extends-configured":
+					noteOrigin = origin + "0509"
+				case "origin-is-prefix-of-configured":
+					noteOrigin = origin[:len(origin)-1]
+				case "origin-other-case":
+					noteOrigin = strings.ToUpper(origin)
+				case "origin-trailing-space":
+					noteOrigin = origin + " "
+				}
+			}
+			nextRaw := pad(sign(signer, nextSize, nextRoot), rU(m, "r.nextSigLines"))
+			noteOrigin = origin
+			// the proof
+			var pf [][]byte
+			plen := rU(m, "r.proofLen")
+			if stored && nextSize > prevSize && prevSize > 0 && vcOK {
+				tp, err := tlog.ProveTree(int64(nextSize), int64(prevSize), hsA)
+				if err != nil {
+					t.Fatal(err)
+				}
+				for _, h := range tp {
+					h := h
+					pf = append(pf, h[:])
+				}
 			} else {
-				want = 7
+				for i := uint64(0); i < plen; i++ {
+					pf = append(pf, bytes.Repeat([]byte{byte(0xa0 + i)}, 32))
+				}
 			}
-		}
-		if want == 1 && rU(m, "r.nextSigLines")+1 > 100 {
-			claimed = false
-		}
-		if claimed && gotKind != want {
-			fail("C09")
-		}
-		if claimed && (want >= 4 && want <= 7) && !(stored && bytes.Equal(out, prevRaw)) {
-			fail("C09")
-		}
-		// C20: counters tell the truth
-		wantC := map[string]int{}
-		if known {
-			wantC["witness_update_request"] = 1
-		}
-		if accepted {
-			wantC["witness_update_success"] = 1
-		}
-		if uerr == ErrInvalidProof {
-			wantC["witness_update_invalid_consistency"] = 1
-		}
-		if uerr == ErrRootMismatch {
-			wantC["witness_update_inconsistent_checkpoints"] = 1
-		}
-		for _, name := range []string{"witness_update_request", "witness_update_success", "witness_update_invalid_consistency", "witness_update_inconsistent_checkpoints"} {
-			if rec.counts[name+"|"+id] != wantC[name] {
-				fail("C20")
+			out, uerr := w.Update(context.Background(), id, oldSize, nextRaw, pf)
+			// observed classes
+			var gotKind uint64 = 8
+			for k, e := range kinds {
+				if uerr == e {
+					gotKind = k
+				}
+			}
+			var gotOut uint64
+			if out != nil {
+				switch {
+				case uerr == nil:
+					gotOut = 2
+				case stored && bytes.Equal(out, prevRaw):
+					gotOut = 1
+				default:
+					gotOut = 3
+				}
+			}
+			accepted := uerr == nil
+			after, aerr := w.GetCheckpoint(id)
+
+			// ---- native oracles: the properties, stated over the real artefacts ----
+			var failed []string
+			fail := func(s string) { failed = append(failed, s) }
+			if accepted && !(known && nextValid) {
+				fail("C02")
+			}
+			if accepted && stored {
+				if !(prevValid && oldSize == prevSize && nextSize >= prevSize && (nextSize != prevSize || sameRoot) && (nextSize == prevSize || prevSize == 0 || vcOK)) {
+					fail("C01")
+				}
+			}
+			if !accepted {
+				unchanged := (stored && aerr == nil && bytes.Equal(after, prevRaw)) || (!stored && aerr != nil)
+				if !unchanged || !(out == nil || (stored && bytes.Equal(out, prevRaw))) {
+					fail("C03")
+				}
+			}
+			if accepted {
+				n, err := note.Open(out, note.VerifierList(lv, ws.Verifier()))
+				nn, err2 := note.Open(nextRaw, note.VerifierList(lv))
+				if err != nil || err2 != nil || len(n.Sigs) != 2 || n.Text != nn.Text || aerr != nil || !bytes.Equal(after, out) {
+					fail("C04")
+				}
+				if aerr == nil {
+					if _, _, _, err := log.ParseCheckpoint(after, origin, lv); err != nil {
+						fail("C08")
+					}
+				}
+			}
+			// C09: first matching rule (claimed cases only)
+			claimed, want := true, uint64(0)
+			switch {
+			case !known:
+				want = 2
+			case !nextValid:
+				want = 3
+			case !stored:
+				want, claimed = 1, oldSize == 0 && plen == 0
+			case !prevValid:
+				claimed = false
+			case oldSize > nextSize:
+				want = 4
+			case oldSize != prevSize:
+				want = 5
+			case nextSize == prevSize && !sameRoot:
+				want = 6
+			case prevSize == 0 && nextSize > 0:
+				claimed = false
+			default:
+				verdict := vcOK
+				if nextSize == prevSize {
+					verdict = plen == 0
+				}
+				if verdict {
+					want = 1
+				} else {
+					want = 7
+				}
+			}
+			if want == 1 && rU(m, "r.nextSigLines")+1 > 100 {
+				claimed = false
+			}
+			if claimed && gotKind != want {
+				fail("C09")
+			}
+			if claimed && (want >= 4 && want <= 7) && !(stored && bytes.Equal(out, prevRaw)) {
+				fail("C09")
+			}
+			// C20: counters tell the truth
+			wantC := map[string]int{}
+			if known {
+				wantC["witness_update_request"] = 1
+			}
+			if accepted {
+				wantC["witness_update_success"] = 1
+			}
+			if uerr == ErrInvalidProof {
+				wantC["witness_update_invalid_consistency"] = 1
+			}
+			if uerr == ErrRootMismatch {
+				wantC["witness_update_inconsistent_checkpoints"] = 1
+			}
+			for _, name := range []string{"witness_update_request", "witness_update_success", "witness_update_invalid_consistency", "witness_update_inconsistent_checkpoints"} {
+				if rec.counts[name+"|"+id] != wantC[name] {
+					fail("C20")
+					break
+				}
+			}
+
+			wantKind, wantOut := rU(m, "r.kind"), rU(m, "r.outKind")
+			match := gotKind == wantKind && gotOut == wantOut
+			if isViolation {
+				// a violation witness: report the first variant under which the real code fails an oracle
+				if len(failed) > 0 || vi == len(invalidVariants)-1 || nextValid || !known {
+					fmt.Printf("SCENARIO %d %s match=%v oracles=%s variant=%s\n", idx, sc.Cover, match, strings.Join(failed, ","), variant)
+					break
+				}
+				continue
+			}
+			fmt.Printf("SCENARIO %d %s match=%v oracles=%s\n", idx, sc.Cover, match, strings.Join(failed, ","))
+			if !match {
+				t.Errorf("REPLAY MISMATCH cover=%s: engine predicted (kind %d, bytes %d), real code gave (kind %d, bytes %d, err=%v); model=%v", sc.Cover, wantKind, wantOut, gotKind, gotOut, uerr, m)
 				break
 			}
+			ok++
 		}
-
-		wantKind, wantOut := rU(m, "r.kind"), rU(m, "r.outKind")
-		match := gotKind == wantKind && gotOut == wantOut
-		fmt.Printf("SCENARIO %d %s match=%v oracles=%s\n", idx, sc.Cover, match, strings.Join(failed, ","))
-		if strings.HasPrefix(sc.Cover, "violation:") {
-			continue
-		}
-		if !match {
-			t.Errorf("REPLAY MISMATCH cover=%s: engine predicted (kind %d, bytes %d), real code gave (kind %d, bytes %d, err=%v); model=%v", sc.Cover, wantKind, wantOut, gotKind, gotOut, uerr, m)
-			continue
-		}
-		ok++
 	}
 	fmt.Printf("REPLAYED %d cover witnesses against the real build\n", ok)
 }
